@@ -209,6 +209,9 @@ def space(tier):
     # broadcast rule: template with more rows than the schedule
     parts.append(Tagged("match", Product([(2, 2, 1)], power([-1, 0, 1, 2], 4), power([-1, 0, 1, 2], 2))))
     parts.append(Tagged("match", Product([(3, 2, 2)], power([0, 1, 2], 6), power([0, 1, 2], 4))))
+    # (g) the scheduler PASS on modules with one, two (every ordered pair) and three operations
+    mods = [(a,) for a in MOD_SHAPES] + [(a, b) for a in MOD_SHAPES for b in MOD_SHAPES] + [(a, b, a) for a in MOD_SHAPES[:4] for b in MOD_SHAPES[:4]]
+    parts.append(Tagged("module", Product(mods)))
     return Concat(*parts)
 
 
@@ -406,9 +409,64 @@ def eval_match(r: CaseResult, shape, fa, fb, want):
         r.violate(f"match|{shape}|{fa}|{fb}|C16|matcher", dict(kind="match", shape=shape, fa=fa, fb=fb), f"TemplatePattern.matches = {got} but the patterns {'do' if wantv else 'do not'} span the same index subspace: template {tA.tolist()} schedule {sA.tolist()}")
 
 
+MOD_SHAPES = [(1, 16), (16, 1), (4, 16), (16, 4), (16, 16), (64,), (1, 64), (2, 8, 4), (8, 1, 8)]
+
+
+def eval_module(r, shapes, want):
+    """the real dart-scheduler PASS on a module with several element-wise snax_alu operations (history: what the pass did for one operation must not leak into
+    the next): every resulting dart.schedule visits exactly the operand-index tuples of its operation"""
+    ops = []
+    args = []
+    for k, sh in enumerate(shapes):
+        ty = "memref<" + "x".join(map(str, sh)) + 'xi64, "L1">'
+        dims = ", ".join(f"d{i}" for i in range(len(sh)))
+        m = f"affine_map<({dims}) -> ({dims})>"
+        args += [f"%a{k} : {ty}", f"%b{k} : {ty}", f"%o{k} : {ty}"]
+        ops.append(
+            f'  "dart.operation"(%a{k}, %b{k}, %o{k}) <{{patterns = [{m}, {m}, {m}], accelerator = "snax_alu", operandSegmentSizes = array<i32: 2, 1>}}> ({{\n'
+            f"  ^bb0(%s{k}0 : !dart.stream<i64>, %s{k}1 : !dart.stream<i64>, %s{k}2 : !dart.stream<i64>):\n"
+            f'    %g{k} = "dart.generic"(%s{k}0, %s{k}1) <{{library_call = "snax_alu"}}> ({{\n    ^bb1(%e{k}0 : i64, %e{k}1 : i64, %e{k}2 : i64):\n      %k{k} = kernel.add %e{k}0, %e{k}1 : i64, i64 -> i64\n      dart.yield %k{k} : i64\n'
+            f"    }}) : (!dart.stream<i64>, !dart.stream<i64>) -> !dart.stream<i64>\n    dart.yield %g{k} : !dart.stream<i64>\n"
+            f"  }}) : ({ty}, {ty}, {ty}) -> ()\n"
+        )
+    text = "builtin.module {\nfunc.func @f(" + ", ".join(args) + ") {\n" + "".join(ops) + "  func.return\n}\n}\n"
+    key = f"module|{shapes!r}"
+    case = dict(kind="module", shapes=[list(x) for x in shapes])
+    r.obs = ("module", shapes)
+    r.sample = dict(kind="module", shapes=[list(x) for x in shapes])
+    try:
+        mod = common.compile_text(text, "insert-accfg-op{accelerator=snax_alu},dart-scheduler")
+    except common.Rejected as e:
+        r.rejected = e.kind
+        r.count("module_rejected:" + str(e)[:60])
+        return
+    scheds = [op for op in mod.walk() if op.name == "dart.schedule"]
+    if len(scheds) != len(shapes):
+        r.rejected = "not-all-scheduled"
+        return
+    r.validated = 1
+    for k, (sh, op) in enumerate(zip(shapes, scheds)):
+        bounds = [b.value.data for b in op.bounds.data]
+        mats = [AffineTransform.from_affine_map(p_.data) for p_ in op.patterns.data]
+        got = Counter()
+        for x in itertools.product(*[range(b) for b in bounds]):
+            xv = np.array(x, dtype=np.int_)
+            got[tuple(tuple(int(v) for v in (T.A @ xv + T.b)) for T in mats)] += 1
+        wantc = Counter((idx, idx, idx) for idx in itertools.product(*[range(n) for n in sh]))
+        r.states += sum(got.values())
+        r.transitions += 1
+        if "C03" in want and got != wantc:
+            extra = next(iter((got - wantc).keys()), None)
+            r.violate(key + f"|C03|op{k}", case, f"operation {k} over shape {sh} of a module with shapes {shapes}: the schedule (bounds {bounds}) visits a different multiset of operand indices, e.g. {extra}")
+
+
 def evaluate(case, want) -> CaseResult:
     kind, p = case
     r = CaseResult()
+    if kind == "module":
+        eval_module(r, p[0], want)
+        r.count("cases_module")
+        return r
     if kind == "sched":
         tname, rows, d, flat, bounds, cs = p
         sch = build_schedule(rows, d, flat, bounds)
@@ -431,6 +489,8 @@ def _t(x):
 
 def replay(case, want):
     k = case["kind"]
+    if k == "module":
+        return evaluate(("module", (_t(case["shapes"]),)), want).violations
     if k in ("sched", "mm"):
         r = evaluate((k, _t(case["p"])), want)
     elif k == "elem":
